@@ -583,3 +583,134 @@ func (e *Env) RClauseSym() {
 }
 
 func identOf(o types.Object) ast.Expr { return &ast.Ident{Name: o.Name()} }
+
+// RAttachWithinFile (R-FILESCOPE): when a package is decorated the fragments of all its files are
+// in one position-ordered list, and link() searches that list, forwards and backwards from a
+// comment or line break, for the decoration point to attach it to. Every such search loop — a
+// `for i := <parameter>; …` over f.fragments in a method of fileDecorator — must stop at the
+// boundary between two files: its first statement is an `if` that leaves the loop when the file
+// (f.Fset.File(pos)) of the visited fragment differs from the file of the fragment the search
+// started from. Without it the comment after the last declaration of one file is attached to the
+// Start of the next file (it is printed in the wrong file) and the final line break is lost.
+func (e *Env) RAttachWithinFile() {
+	pkg := e.Prog.Pkg(load.PkgDecorator)
+	info := pkg.TypesInfo
+	// helpers that compare the files of two positions
+	comparesFiles := func(body ast.Node) bool {
+		found := false
+		ast.Inspect(body, func(n ast.Node) bool {
+			be, ok := n.(*ast.BinaryExpr)
+			if !ok || (be.Op != token.EQL && be.Op != token.NEQ) {
+				return true
+			}
+			isFileOf := func(x ast.Expr) bool {
+				call, ok := ast.Unparen(x).(*ast.CallExpr)
+				return ok && funcKey(calleeFunc(info, call)) == "(*go/token.FileSet).File"
+			}
+			if isFileOf(be.X) && isFileOf(be.Y) {
+				found = true
+			}
+			return true
+		})
+		return found
+	}
+	helper := map[types.Object]bool{}
+	for _, fd := range load.AllFuncDecls(pkg) {
+		if fd.Body != nil && comparesFiles(fd.Body) {
+			if fd.Type.Results != nil && len(fd.Type.Results.List) == 1 && types.ExprString(fd.Type.Results.List[0].Type) == "bool" {
+				helper[info.Defs[fd.Name]] = true
+			}
+		}
+	}
+	n := 0
+	for _, fd := range load.AllFuncDecls(pkg) {
+		if fd.Body == nil || fd.Recv == nil || recvTypeName(fd) != "fileDecorator" {
+			continue
+		}
+		params := map[types.Object]bool{}
+		for _, p := range fd.Type.Params.List {
+			for _, nm := range p.Names {
+				params[info.Defs[nm]] = true
+			}
+		}
+		ast.Inspect(fd.Body, func(nd ast.Node) bool {
+			fs, ok := nd.(*ast.ForStmt)
+			if !ok || fs.Init == nil {
+				return true
+			}
+			init, ok := fs.Init.(*ast.AssignStmt)
+			if !ok || len(init.Lhs) != 1 || len(init.Rhs) != 1 {
+				return true
+			}
+			src, ok := ast.Unparen(init.Rhs[0]).(*ast.Ident)
+			if !ok || !params[info.Uses[src]] {
+				return true
+			}
+			iv, _ := init.Lhs[0].(*ast.Ident)
+			// does the body index f.fragments with the loop variable?
+			idx := false
+			ast.Inspect(fs.Body, func(m ast.Node) bool {
+				if ix, ok := m.(*ast.IndexExpr); ok {
+					if se, ok := ix.X.(*ast.SelectorExpr); ok && se.Sel.Name == "fragments" {
+						if id, ok := ix.Index.(*ast.Ident); ok && iv != nil && info.Uses[id] == info.Defs[iv] {
+							idx = true
+						}
+					}
+				}
+				return true
+			})
+			if !idx {
+				return true
+			}
+			n++
+			guarded := false
+			if len(fs.Body.List) > 0 {
+				if is, ok := fs.Body.List[0].(*ast.IfStmt); ok && len(is.Body.List) > 0 {
+					leaves := false
+					switch l := is.Body.List[len(is.Body.List)-1].(type) {
+					case *ast.ReturnStmt:
+						leaves = true
+					case *ast.BranchStmt:
+						leaves = l.Tok == token.BREAK
+					}
+					cmp := comparesFiles(is.Cond)
+					ast.Inspect(is.Cond, func(m ast.Node) bool {
+						if call, ok := m.(*ast.CallExpr); ok {
+							if fn := calleeFunc(info, call); fn != nil && helper[fn] {
+								// one of the arguments is the visited fragment
+								for _, a := range call.Args {
+									if ix, ok := ast.Unparen(a).(*ast.IndexExpr); ok {
+										if id, ok := ix.Index.(*ast.Ident); ok && iv != nil && info.Uses[id] == info.Defs[iv] {
+											cmp = true
+										}
+									}
+								}
+							}
+						}
+						return true
+					})
+					guarded = leaves && cmp
+				}
+			}
+			e.Run.Check("R-FILESCOPE", fmt.Sprintf("%s: the attachment search stops at the boundary between two files", load.FuncName(fd)), e.Prog.Pos(fs.Pos()), guarded,
+				"the loop walks f.fragments from a given fragment without first leaving when f.Fset.File(pos) of the visited fragment differs from that of the start: with a package (ParseDir) a trailing comment of one file is attached to the next file's Start and the file's final line break is lost")
+			return true
+		})
+	}
+	e.Run.Analysed("attachment search loops", n)
+	e.Run.Floor("R-FILESCOPE", "attachment search loops over f.fragments", n, 3)
+}
+
+func recvTypeName(fd *ast.FuncDecl) string {
+	if fd.Recv == nil || len(fd.Recv.List) != 1 {
+		return ""
+	}
+	t := fd.Recv.List[0].Type
+	if st, ok := t.(*ast.StarExpr); ok {
+		t = st.X
+	}
+	if id, ok := t.(*ast.Ident); ok {
+		return id.Name
+	}
+	return ""
+}
